@@ -237,7 +237,7 @@ theorem judgeFnc_some (g : MGraph) (s : Nat) (seq : List Nat) (bfErr : Bool)
         split at h
         · rename_i hc
           exact ⟨hb, negReachable_true hneg, checkNegClosedWalk_sound g seq hc⟩
-        · split at h <;> simp at h
+        · simp at h
 
 theorem judgeFnc_none (g : MGraph) (s : Nat) (bfErr : Bool)
     (h : judgeFnc g s none bfErr = .ok) : bfErr = false ∧ ¬ NegCycleReachable g s := by
@@ -257,37 +257,22 @@ theorem judgeFnc_none (g : MGraph) (s : Nat) (bfErr : Bool)
         subst hn
         exact ⟨hb, negReachable_false hneg⟩
 
-/-- the `KNOWN D15` classification is only ever given to an answer that violates the clause -/
-theorem judgeFnc_d15 (g : MGraph) (s : Nat) (ans : Option (List Nat)) (bfErr : Bool) (why : String)
-    (h : judgeFnc g s ans bfErr = .d15 why) :
-    ans = some [s] ∧ checkNegClosedWalk g [s] = false ∧ bfErr = true ∧ NegCycleReachable g s := by
+/-- a returned sequence is always judged by `checkNegClosedWalk`: nothing that fails it is accepted
+(there is no `KNOWN` classification any more; D15 is repaired) -/
+theorem judgeFnc_rejects (g : MGraph) (s : Nat) (seq : List Nat) (bfErr : Bool)
+    (hc : checkNegClosedWalk g seq = false) : judgeFnc g s (some seq) bfErr ≠ .ok := by
+  intro h
   unfold judgeFnc at h
   split at h
   · simp at h
-  · rename_i neg hneg
+  · simp only at h
     split at h
+    · simp at h
     · split at h
       · simp at h
-      · split at h <;> simp at h
-    · rename_i seq
-      split at h
-      · simp at h
-      · rename_i hn
-        have hn : neg = true := by simpa using hn
-        subst hn
-        split at h
+      · split at h
+        · rename_i hc'; rw [hc] at hc'; cases hc'
         · simp at h
-        · rename_i hb
-          have hb : bfErr = true := by simpa using hb
-          split at h
-          · simp at h
-          · rename_i hc
-            split at h
-            · rename_i hs
-              have hs : seq = [s] := by simpa using hs
-              subst hs
-              exact ⟨rfl, by simpa using hc, hb, negReachable_true hneg⟩
-            · simp at h
 
 /-! ### all-pairs judges -/
 
